@@ -1,0 +1,6 @@
+//go:build !verif
+// +build !verif
+
+package storage
+
+func verifSubstep(vol0, vol1, dt, avgOutflow, avgArea, spill float64, accepted bool) {}
